@@ -92,6 +92,7 @@ func (r *run) retainState(i int, n uint64) {
 
 // checkRetained re-validates every retained result after a step.
 func (r *run) checkRetained(ctx string) *mismatch {
+	r.w.counts["retained results re-checked"] += len(r.ret.entries) + len(r.ret.lookups) + len(r.ret.states)
 	for _, e := range r.ret.entries {
 		if fp := fingerprintEntry(e.pc); fp != e.fp {
 			was, is := fpDelta(e.fp, fp)
